@@ -18,6 +18,9 @@ pub enum Kind {
     Async,
     /// a pipeline of three commands (the parent shifts pipes between elements)
     Pipe3,
+    /// `$(trap)`: although command traps are reset in the subshell, the listing
+    /// shows the traps of the parent
+    CsTrap,
 }
 
 #[derive(Clone, Debug, Serialize, Deserialize, PartialEq)]
@@ -92,7 +95,20 @@ fn mutator(rng: &mut Rng, n: &mut u32) -> String {
 fn gen_test(rng: &mut Rng, n: &mut u32, id: &mut u32, depth: u32) -> Test {
     *id += 1;
     let my = *id;
-    let kind = *rng.pick(&[Kind::Paren, Kind::Paren, Kind::Cs, Kind::Pipe, Kind::Async, Kind::Async, Kind::Pipe3]);
+    let kind = *rng.pick(&[
+        Kind::Paren,
+        Kind::Paren,
+        Kind::Cs,
+        Kind::Cs,
+        Kind::Pipe,
+        Kind::Pipe,
+        Kind::Async,
+        Kind::Async,
+        Kind::Async,
+        Kind::Pipe3,
+        Kind::Pipe3,
+        Kind::CsTrap,
+    ]);
     let muts = |rng: &mut Rng, n: &mut u32, max: u32| -> Vec<String> {
         (0..rng.below(max + 1)).map(|_| mutator(rng, n)).collect()
     };
@@ -101,7 +117,7 @@ fn gen_test(rng: &mut Rng, n: &mut u32, id: &mut u32, depth: u32) -> Test {
     let mut child2 = if matches!(kind, Kind::Pipe | Kind::Pipe3) { muts(rng, n, 4) } else { Vec::new() };
     // the second element's stdin is the pipe the positive control reads
     child2.retain(|m| m != "exec </work/e1" && m != "exec <&-");
-    let nested = if depth < 2 && rng.below(3) == 0 {
+    let nested = if kind != Kind::CsTrap && depth < 2 && rng.below(3) == 0 {
         Some(Box::new(gen_test(rng, n, id, depth + 1)))
     } else {
         None
@@ -182,6 +198,9 @@ fn render_test(t: &Test, out: &mut String) {
             join(&t.child),
             inner
         )),
+        Kind::CsTrap => out.push_str(&format!(
+            "trap >/work/tp{k}\ncs{k}=$(trap)\necho \"$cs{k}\" >/work/tc{k}\nsnap C{k}\necho data{k}\n"
+        )),
         Kind::Pipe3 => out.push_str(&format!(
             "{{ snap E{k}; {}{}echo data{k}; snap X{k}; }} | {{ snap F{k}; {}cat; snap Y{k}; }} | {{ snap G{k}; cat >{ctl_file}; snap Z{k}; }}\nsnap C{k}\ncat {ctl_file}\n",
             join(&t.child),
@@ -206,7 +225,7 @@ fn expected_stdout_test(t: &Test, out: &mut String) {
     // output is not compared (see `expected_stdout`).
     let k = t.id;
     match t.kind {
-        Kind::Paren | Kind::Pipe | Kind::Pipe3 => out.push_str(&format!("data{k}\n")),
+        Kind::Paren | Kind::Pipe | Kind::Pipe3 | Kind::CsTrap => out.push_str(&format!("data{k}\n")),
         Kind::Cs => out.push_str(&format!("data{k}\nout{k}\n")),
         Kind::Async => out.push_str(&format!("mid{k}\ndata{k}\n")),
     }
@@ -301,7 +320,7 @@ fn check_test(t: &Test, snaps: &BTreeMap<String, SnapMap>, tolerant: bool) -> Op
     // --- parent unchanged
     let cs_var = format!("var:cs{k}");
     let leak_skip = |key: &str| -> bool {
-        (key == "jobs" || key == "lastasync") && t.kind == Kind::Async || key == cs_var && t.kind == Kind::Cs
+        (key == "jobs" || key == "lastasync") && t.kind == Kind::Async || key == cs_var && matches!(t.kind, Kind::Cs | Kind::CsTrap)
     };
     let mut parents = vec![("C", c)];
     if t.kind == Kind::Async {
@@ -331,6 +350,7 @@ fn check_test(t: &Test, snaps: &BTreeMap<String, SnapMap>, tolerant: bool) -> Op
         Kind::Pipe => vec![("E", false, true), ("F", true, false)],
         Kind::Pipe3 => vec![("E", false, true), ("F", true, true), ("G", true, false)],
         Kind::Cs => vec![("E", false, true)],
+        Kind::CsTrap => vec![],
         _ => vec![("E", false, false)],
     };
     for (label, pipe_in, pipe_out) in entries {
@@ -346,7 +366,7 @@ fn check_test(t: &Test, snaps: &BTreeMap<String, SnapMap>, tolerant: bool) -> Op
         let keys: Vec<String> = want.keys().cloned().collect();
         for key in keys {
             if key.starts_with("trap:") && want[&key].starts_with("C:") {
-                want.insert(key.clone(), "D".into());
+                want.remove(&key);
                 // the disposition follows for signal conditions
                 if let Some(num) = key.strip_prefix("trap:S").and_then(|n| n.parse::<u32>().ok()) {
                     want.remove(&format!("disp:{num:03}"));
@@ -366,7 +386,7 @@ fn check_test(t: &Test, snaps: &BTreeMap<String, SnapMap>, tolerant: bool) -> Op
                         || key == "trap:S002"
                         || key == "trap:S003"
                 }
-                Kind::Cs | Kind::Pipe | Kind::Pipe3 => (pipe_in && key == "fd:0") || (pipe_out && key == "fd:1"),
+                Kind::Cs | Kind::Pipe | Kind::Pipe3 | Kind::CsTrap => (pipe_in && key == "fd:0") || (pipe_out && key == "fd:1"),
                 Kind::Paren => false,
             }
         };
@@ -459,6 +479,25 @@ fn check_run_opt(c: &Case, obs: &Observed, tolerant: bool) -> Option<Viol> {
     for t in all {
         if let Some(v) = check_test(t, &snaps, tolerant) {
             return Some(v);
+        }
+        // (only at the top level: what `trap` lists in a subshell of a subshell
+        // is not specified)
+        if t.kind == Kind::CsTrap && !tolerant && c.tests.iter().any(|top| top.id == t.id) {
+            let text = |p: String| -> Option<String> {
+                obs.files
+                    .get(&p)
+                    .map(|(_, _, c)| String::from_utf8_lossy(c).trim_end_matches('\n').to_string())
+            };
+            let (tp, tc) = (text(format!("/work/tp{}", t.id)), text(format!("/work/tc{}", t.id)));
+            if let (Some(tp), Some(tc)) = (&tp, &tc)
+                && tp != tc
+            {
+                return Some((
+                    "entry".into(),
+                    "entry:trap-listing".into(),
+                    format!("test {}: `$(trap)` prints {tc:?}, `trap` in the parent prints {tp:?}: the listing inside a command substitution shows the parent's traps", t.id),
+                ));
+            }
         }
     }
     if tolerant {
